@@ -35,6 +35,7 @@ type bpmEnv struct {
 	virgin map[int]bool
 	dead   bool // pool poisoned by a panic (its mutex may be left locked)
 	raceFirst map[string]interface{}
+	raceSecond map[string]interface{}
 }
 
 func newBpmEnv(nf, maxPid int) *bpmEnv {
@@ -124,7 +125,7 @@ func (e *bpmEnv) applicable(op []string) bool {
 		p, _ = strconv.Atoi(op[1])
 	}
 	switch op[0] {
-	case "NewPage":
+	case "NewPage", "FetchMissing":
 		return true
 	case "FetchPage":
 		return e.live[p]
@@ -184,6 +185,12 @@ func (e *bpmEnv) do(op []string) map[string]interface{} {
 			ev["val"] = readStamp(pg.Data()[:])
 			ev["gotpid"] = int(pg.GetPageID())
 			e.held[p] = append(e.held[p], pg)
+		case "FetchMissing": // a page id far beyond the end of the db file: the read fails
+			if pg := e.bpm.FetchPage(types.PageID(1 << 20)); pg != nil {
+				ev["res"] = "unexpected page"
+			} else {
+				ev["res"] = "missing"
+			}
 		case "WriteUnpin":
 			pg := e.held[p][len(e.held[p])-1]
 			e.held[p] = e.held[p][:len(e.held[p])-1]
@@ -215,7 +222,9 @@ func (e *bpmEnv) do(op []string) map[string]interface{} {
 				}
 				fired = true
 				e.md.OnWritePage = nil
-				first := map[string]interface{}{"ev": "FlushPage", "panic": "", "pid": p, "res": "ok", "race": true}
+				// three recorded steps: FlushHold (state seen inside the disk write: the flusher holds a pin),
+				// WriteUnpin of the user (still inside the write), FlushRelease (after FlushPage returned)
+				first := map[string]interface{}{"ev": "FlushHold", "panic": "", "pid": p, "res": "ok", "race": true}
 				e.project(first)
 				e.raceFirst = first
 				pg := e.held[p][len(e.held[p])-1]
@@ -226,6 +235,9 @@ func (e *bpmEnv) do(op []string) map[string]interface{} {
 				pg.WUnlatch()
 				e.virgin[p] = false
 				e.bpm.UnpinPage(types.PageID(p), true)
+				second := map[string]interface{}{"ev": "WriteUnpin", "panic": "", "pid": p, "res": "ok", "race": true, "val": e.ver[p]}
+				e.project(second)
+				e.raceSecond = second
 			}
 			ok := e.bpm.FlushPage(types.PageID(p))
 			e.md.OnWritePage = nil
@@ -234,8 +246,7 @@ func (e *bpmEnv) do(op []string) map[string]interface{} {
 				ev["res"] = "notresident"
 				return
 			}
-			ev["ev"] = "WriteUnpin"
-			ev["val"] = e.ver[p]
+			ev["ev"] = "FlushRelease"
 			ev["res"] = "ok"
 			ev["race"] = true
 		case "DeallocNoWait":
@@ -296,6 +307,10 @@ func bpmDriver(args []string) error {
 					tw.Emit(e.raceFirst)
 					e.raceFirst = nil
 				}
+				if e.raceSecond != nil {
+					tw.Emit(e.raceSecond)
+					e.raceSecond = nil
+				}
 				tw.Emit(ev)
 				if e.dead {
 					break
@@ -314,8 +329,8 @@ func bpmDriver(args []string) error {
 			return err
 		}
 		rng := rand.New(rand.NewSource(envSeed()))
-		names := []string{"NewPage", "FetchPage", "WriteUnpin", "UnpinClean", "FlushPage", "DeallocNoWait", "LazyDeallocUnpin", "FlushRace"}
-		weights := []int{14, 28, 20, 11, 8, 7, 6, 6}
+		names := []string{"NewPage", "FetchPage", "WriteUnpin", "UnpinClean", "FlushPage", "DeallocNoWait", "LazyDeallocUnpin", "FlushRace", "FetchMissing"}
+		weights := []int{14, 24, 20, 11, 8, 7, 6, 6, 4}
 		for q := 0; q < nseq; q++ {
 			nf, _ := strconv.Atoi(fl[q%len(fl)])
 			e := newBpmEnv(nf, mp)
@@ -370,6 +385,10 @@ func bpmDriver(args []string) error {
 				if e.raceFirst != nil {
 					tw.Emit(e.raceFirst)
 					e.raceFirst = nil
+				}
+				if e.raceSecond != nil {
+					tw.Emit(e.raceSecond)
+					e.raceSecond = nil
 				}
 				tw.Emit(ev)
 			}
